@@ -616,6 +616,8 @@ class OscMessage(object):
                     val = True
                 elif param == "F":  # False.
                     val = False
+                elif param == "N":  # Nil.
+                    val = None
                 elif param == "[":  # Array start.
                     array = []
                     param_stack[-1].append(array)
@@ -628,8 +630,10 @@ class OscMessage(object):
                     param_stack.pop()
                 # TODO: Support more exotic types as described in the specification.
                 else:
-                    _logger.warning(f'Unhandled parameter type: {param}')
-                    continue
+                    # OSC 1.0: discard messages with unrecognized type tags
+                    # (the size of their data is unknown).
+                    raise OscMessageParseError(
+                        f'Unhandled parameter type: {param}')
                 if param not in "[]":
                     param_stack[-1].append(val)
             if len(param_stack) != 1:
